@@ -1,4 +1,314 @@
-(* Case runner and spec checker (T3) for C18 — stub. *)
-From WI Require Import Lib.Base Lib.Info Model.Jwt.
-Definition run_C18 (op : bytes) (input : arg) : arg := AL [].
-Definition check_C18 (op : bytes) (input impl : arg) : arg := AL [].
+(* Case runner and spec checker (T3) for C18. *)
+From WI Require Import Lib.Base Lib.Info Lib.Strings Lib.Time Model.Base64 Model.Jwt.
+Open Scope N_scope.
+
+(* ================= decoding of the case input =================
+   input  = (token oracle ast)
+   oracle = ((#decoded jres) ...)      what json.Unmarshal returned for the decoded segments
+   jres   = (0 ((#key jval) ...)) | (1) | (2)         object / null / error
+   jval   = (0 #s) | (1 m e) | (2 b) | (3) | (4) | (5)  string / float64 m*2^e / bool / null / array / object
+   ast    = (kind hdr pl #sig)   kind 0 = well-formed token built from the ASTs hdr, pl
+                                 kind 1 = near miss that must not be recognised
+                                 kind 2 = not judged from the AST (malformed stream)
+   hdr,pl = ((#key aval) ...) in serialisation order, duplicates possible
+   aval   = (0 #s) | (1 mant exp10) | (2 b) | (3) | (4) | (5)   number = mant * 10^exp10 *)
+Definition jval_of_arg (a : arg) : jvalue :=
+  match a with
+  | AL [AZ 0%Z; AB s] => JStr s
+  | AL [AZ 1%Z; AZ m; AZ e] => JNum m e
+  | AL [AZ 2%Z; AZ b] => JBool (negb (Z.eqb b 0))
+  | AL [AZ 3%Z] => JNull
+  | AL [AZ 4%Z] => JArr
+  | _ => JObj
+  end.
+Definition jres_of_arg (a : arg) : jres :=
+  match a with
+  | AL [AZ 0%Z; AL kvs] => JRObject (map (fun kv => (arg_bytes (arg_nth 0 kv), jval_of_arg (arg_nth 1 kv))) kvs)
+  | AL [AZ 1%Z] => JRNull
+  | _ => JRError
+  end.
+Fixpoint J_of (oracle : list arg) (b : bytes) : jres :=
+  match oracle with
+  | [] => JRError
+  | o :: r => if bytes_eqb (arg_bytes (arg_nth 0 o)) b then jres_of_arg (arg_nth 1 o) else J_of r b
+  end.
+
+Definition run_C18 (op : bytes) (input : arg) : arg :=
+  let tok := arg_bytes (arg_nth 0 input) in
+  let J := J_of (arg_list (arg_nth 1 input)) in
+  if bytes_eqb op (bs "isjwt") then AL [AZ 0; ok_arg (is_jwt J tok)]
+  else if bytes_eqb op (bs "parse") then obs_result (fun j => AB (j_sig j)) (parse_jwt J tok)
+  else if bytes_eqb op (bs "describe") then AL [obs_result arg_of_info (jwt_data J tok)]
+  else if bytes_eqb op (bs "inspect") then obs_result arg_of_info (jwt_data J tok)
+  else AL [].
+
+(* ================= the spec checker =================
+   Written from the property text, RFC 7515 4.1, RFC 7519 4.1, RFC 7518 3.1 and RFC 4648 5;
+   it looks only at the generated ASTs and at what the implementation printed. *)
+Inductive aval := AStr (s : bytes) | ANum (mant exp10 : Z) | AOther.
+Definition aval_of_arg (a : arg) : aval :=
+  match a with
+  | AL [AZ 0%Z; AB s] => AStr s
+  | AL [AZ 1%Z; AZ m; AZ e] => ANum m e
+  | _ => AOther
+  end.
+Definition aobj := list (bytes * aval).
+Definition aobj_of_arg (a : arg) : aobj :=
+  map (fun kv => (arg_bytes (arg_nth 0 kv), aval_of_arg (arg_nth 1 kv))) (arg_list a).
+(* a member name that occurs twice: the last occurrence counts (RFC 7519 section 4) *)
+Fixpoint alookup (k : bytes) (o : aobj) : option aval :=
+  match o with
+  | [] => None
+  | (k', v) :: r => match alookup k r with
+                    | Some v' => Some v'
+                    | None => if bytes_eqb k k' then Some v else None
+                    end
+  end.
+
+Inductive skind := SText | SAlg | SDate.
+Definition spec_registered : list (bytes * bytes * skind) := [
+  (* RFC 7515 4.1 *)
+  (bs "alg", bs "Signature Algorithm", SAlg);
+  (bs "jku", bs "JWK Set URL", SText);
+  (bs "jwk", bs "JSON Web Key", SText);
+  (bs "kid", bs "Key Id", SText);
+  (bs "x5u", bs "X.509 URL", SText);
+  (bs "x5c", bs "X.509 Certificate Chain", SText);
+  (bs "x5t", bs "X.509 Thumbprint (SHA1)", SText);
+  (bs "x5t#S256", bs "X.509 Thumbprint (SHA256)", SText);
+  (bs "typ", bs "Type", SText);
+  (* RFC 7519 4.1 *)
+  (bs "iss", bs "Issuer", SText);
+  (bs "sub", bs "Subject", SText);
+  (bs "aud", bs "Audience", SText);
+  (bs "exp", bs "Expiration", SDate);
+  (bs "nbf", bs "Not Before", SDate);
+  (bs "iat", bs "Issued At", SDate);
+  (bs "jti", bs "JWT Id", SText)
+].
+
+(* acceptable renderings of one field *)
+Inductive want := WBytes (b : bytes) | WDate (t : Z) | WAlg (name : bytes) | WNothing.
+
+(* RFC 7518 3.1: the twelve signature algorithms *)
+Definition spec_algs : list bytes :=
+  [bs "HS256"; bs "HS384"; bs "HS512"; bs "RS256"; bs "RS384"; bs "RS512";
+   bs "ES256"; bs "ES384"; bs "ES512"; bs "PS256"; bs "PS384"; bs "PS512"].
+Definition alg_ok (name v : bytes) : bool :=
+  let fam := take 2 name in
+  let bits := drop 2 name in
+  contains name v && contains (bs "SHA-" ++ bits) v &&
+  (if bytes_eqb fam (bs "HS") then contains (bs "HMAC") v
+   else if bytes_eqb fam (bs "RS") then contains (bs "RSA") v && contains (bs "1.5") v && negb (contains (bs "PSS") v)
+   else if bytes_eqb fam (bs "PS") then contains (bs "RSA") v && contains (bs "PSS") v && contains (bs "MGF1") v
+   else contains (bs "ECDSA") v &&
+        contains (if bytes_eqb bits (bs "256") then bs "P-256"
+                  else if bytes_eqb bits (bs "384") then bs "P-384" else bs "P-521") v).
+
+(* seconds of 0001-01-01T00:00:00Z and 9999-12-31T23:59:59Z *)
+Definition spec_min : Z := (- (719162 * 86400))%Z.
+Definition spec_max : Z := (2932897 * 86400 - 1)%Z.
+Definition date_want (t : Z) : want :=
+  if ((spec_min <=? t) && (t <=? spec_max))%Z then WDate t else WNothing.
+
+Definition dig (c : N) : option Z :=
+  if (48 <=? c) && (c <=? 57) then Some (Z.of_N (c - 48)) else None.
+Fixpoint spec_digits (acc : Z) (l : bytes) : option Z :=
+  match l with
+  | [] => Some acc
+  | c :: r => match dig c with Some d => spec_digits (acc * 10 + d)%Z r | None => None end
+  end.
+Definition spec_int (s : bytes) : option Z :=
+  match s with
+  | [] => None
+  | 45 :: (_ :: _) as r => match spec_digits 0%Z r with Some v => Some (- v)%Z | None => None end
+  | 43 :: (_ :: _) as r => spec_digits 0%Z r
+  | 45 :: [] | 43 :: [] => None
+  | _ => spec_digits 0%Z s
+  end.
+
+(* a JSON number mant*10^exp10 read as a double may move by one part in 2^53 *)
+Definition num_wants (m e : Z) : list want :=
+  let num := (if 0 <=? e then m * 10 ^ e else m)%Z in
+  let den := (if 0 <=? e then 1 else 10 ^ (- e))%Z in
+  let p := (2 ^ 53)%Z in
+  [date_want (num / den)%Z;
+   date_want ((num * p - Z.abs num) / (den * p))%Z;
+   date_want ((num * p + Z.abs num) / (den * p))%Z].
+
+Definition wants_of (k : skind) (v : aval) : list want :=
+  match k, v with
+  | SText, AStr s => [WBytes s]
+  | SAlg, AStr s => if existsb (bytes_eqb s) spec_algs then [WAlg s] else [WBytes s]
+  | SDate, AStr s =>
+      match spec_int s with
+      | Some i => match date_want i with WDate t => [WDate t; WBytes s] | _ => [WBytes s] end
+      | None => [WBytes s]
+      end
+  | SDate, ANum m e => num_wants m e
+  | _, _ => []                  (* null, boolean, array, object, misplaced number: not shown *)
+  end.
+
+(* the shown text "YYYY-MM-DD hh:mm:ss" read back as an instant (inverse direction of the
+   calendar computation the model uses) *)
+Definition nthb (i : nat) (v : bytes) : N := nth i v 0.
+Definition num_at (i n : nat) (v : bytes) : option Z := spec_digits 0%Z (take n (drop i v)).
+Definition leap (y : Z) : bool := ((y mod 4 =? 0) && (negb (y mod 100 =? 0) || (y mod 400 =? 0)))%Z.
+Definition month_days (y m : Z) : Z :=
+  (if m =? 2 then (if leap y then 29 else 28)
+   else if (m =? 4) || (m =? 6) || (m =? 9) || (m =? 11) then 30 else 31)%Z.
+Definition parse_datetime (v : bytes) : option Z :=
+  if negb (Nat.eqb (length v) 19) then None
+  else if negb ((nthb 4 v =? 45) && (nthb 7 v =? 45) && (nthb 10 v =? 32) && (nthb 13 v =? 58) && (nthb 16 v =? 58)) then None
+  else match num_at 0 4 v, num_at 5 2 v, num_at 8 2 v, num_at 11 2 v, num_at 14 2 v, num_at 17 2 v with
+       | Some y, Some mo, Some d, Some h, Some mi, Some s =>
+           if ((1 <=? mo) && (mo <=? 12) && (1 <=? d) && (d <=? month_days y mo)
+               && (h <? 24) && (mi <? 60) && (s <? 60))%Z
+           then Some (days_of_civil y mo d * 86400 + h * 3600 + mi * 60 + s)%Z
+           else None
+       | _, _, _, _, _, _ => None
+       end.
+
+Definition match_want (v : bytes) (w : want) : bool :=
+  match w with
+  | WBytes b => bytes_eqb b v
+  | WDate t => match parse_datetime v with Some t' => Z.eqb t t' | None => false end
+  | WAlg n => alg_ok n v
+  | WNothing => false
+  end.
+Definition is_nothing (w : want) : bool := match w with WNothing => true | _ => false end.
+
+(* one expectation per registered name: label, acceptable renderings ([] = must not appear) *)
+Definition expectations (o : aobj) : list (bytes * list want * skind * option aval) :=
+  map (fun r => match r with (k, l, sk) =>
+         match alookup k o with
+         | Some v => (l, wants_of sk v, sk, Some v)
+         | None => (l, [], sk, None)
+         end end) spec_registered.
+
+Definition mandatory (e : bytes * list want * skind * option aval) : bool :=
+  match e with (_, ws, _, _) => match ws with [] => false | _ => negb (existsb is_nothing ws) end end.
+
+Definition attr_ok (es : list (bytes * list want * skind * option aval)) (a : bytes * bytes) : bool :=
+  existsb (fun e => match e with (l, ws, _, _) => bytes_eqb l (fst a) && existsb (match_want (snd a)) ws end) es.
+Fixpoint nodup_labels (l : list (bytes * bytes)) : bool :=
+  match l with
+  | [] => true
+  | a :: r => negb (existsb (fun b => bytes_eqb (fst a) (fst b)) r) && nodup_labels r
+  end.
+Definition group_ok (es : list (bytes * list want * skind * option aval)) (attrs : list (bytes * bytes)) : bool :=
+  forallb (attr_ok es) attrs && nodup_labels attrs &&
+  forallb (fun e => negb (mandatory e) || existsb (fun a => bytes_eqb (fst (fst (fst e))) (fst a)) attrs) es.
+
+Fixpoint any_split (n : nat) (f : nat -> bool) : bool :=
+  match n with O => f O | S n' => f n || any_split n' f end.
+
+Definition missing_reason (e : bytes * list want * skind * option aval) : arg :=
+  match e with
+  | (_, _, SDate, Some (ANum _ _)) => AS "numeric date claim (exp/nbf/iat) present with a number is not shown as the UTC time it denotes"
+  | (_, _, _, Some (AStr [])) => AS "registered field present with the empty string as value is not shown"
+  | (_, _, SAlg, _) => AS "alg present with a string value is not shown as that algorithm (RFC 7518 name, family, hash and curve; other strings verbatim)"
+  | _ => AS "registered field present with a string value is not shown with that value"
+  end.
+
+(* attrs = the implementation's attributes without the final Signature *)
+Definition check_fields (hdr pl : aobj) (attrs : list (bytes * bytes)) : arg :=
+  let eh := expectations hdr in
+  let ep := expectations pl in
+  if any_split (length attrs) (fun k => group_ok eh (firstn k attrs) && group_ok ep (skipn k attrs)) then AL []
+  else
+    (* diagnosis *)
+    match filter (fun e => mandatory e && negb (existsb (fun a => attr_ok [e] a) attrs)) (eh ++ ep) with
+    | e :: _ => missing_reason e
+    | [] =>
+        match filter (fun a => negb (attr_ok (eh ++ ep) a)) attrs with
+        | _ :: _ => AS "an attribute is shown that is not a registered field present with that value (absent, non-string or altered)"
+        | [] => AS "attributes are not listed as header fields, then claims, each once"
+        end
+    end.
+
+(* RFC 4648 section 5, without padding *)
+Definition url_alphabet : bytes := bs "ABCDEFGHIJKLMNOPQRSTUVWXYZabcdefghijklmnopqrstuvwxyz0123456789-_".
+Definition sextet (v : N) : N := nth (N.to_nat v) url_alphabet 0.
+Fixpoint spec_b64url (l : bytes) : bytes :=
+  match l with
+  | [] => []
+  | [a] => let n := a * 65536 in [sextet (n / 262144); sextet ((n / 4096) mod 64)]
+  | [a; b] => let n := a * 65536 + b * 256 in
+              [sextet (n / 262144); sextet ((n / 4096) mod 64); sextet ((n / 64) mod 64)]
+  | a :: b :: c :: r =>
+      let n := a * 65536 + b * 256 + c in
+      [sextet (n / 262144); sextet ((n / 4096) mod 64); sextet ((n / 64) mod 64); sextet (n mod 64)]
+        ++ spec_b64url r
+  end.
+
+Definition spec_desc : bytes := bs "JSON Web Token (JWT)".
+
+Definition check_described (hdr pl : aobj) (sig : bytes) (i : info) : arg :=
+  match i with
+  | Info d attrs ch =>
+      if negb (bytes_eqb d spec_desc) then AS "well-formed JWT is not reported as a JWT"
+      else match ch with _ :: _ => AS "JWT reported with children" | [] =>
+        match rev attrs with
+        | [] => AS "no Signature attribute"
+        | (sl, sv) :: rest =>
+            if negb (bytes_eqb sl (bs "Signature")) then AS "last attribute is not the Signature"
+            else if negb (bytes_eqb sv (spec_b64url sig)) then AS "Signature is not the base64url (unpadded) of the raw signature bytes"
+            else check_fields hdr pl (rev rest)
+        end end
+  end.
+
+Definition count_dots (s : bytes) : nat := length (filter (fun c => c =? 46) s).
+
+Definition is_panic_obs (a : arg) : bool := match a with AL [AZ 2%Z] => true | _ => false end.
+
+Definition check_C18 (op : bytes) (input impl : arg) : arg :=
+  let tok := arg_bytes (arg_nth 0 input) in
+  let ast := arg_nth 2 input in
+  let kind := arg_Z (arg_nth 0 ast) in
+  let hdr := aobj_of_arg (arg_nth 1 ast) in
+  let pl := aobj_of_arg (arg_nth 2 ast) in
+  let sig := arg_bytes (arg_nth 3 ast) in
+  let must_reject := (Z.eqb kind 1) || negb (Nat.eqb (count_dots tok) 2) in
+  if bytes_eqb op (bs "isjwt") then
+    match impl with
+    | AL [AZ 0%Z; AZ b] =>
+        if must_reject && negb (Z.eqb b 0) then AS "input that is not three base64 segments with JSON-object header and payload is recognised as a JWT"
+        else if (Z.eqb kind 0) && (Z.eqb b 0) then AS "well-formed JWT is not recognised"
+        else AL []
+    | AL [AZ 2%Z] => AS "failure of the program (panic)"
+    | _ => AS "malformed observation"
+    end
+  else if bytes_eqb op (bs "parse") then
+    match impl with
+    | AL [AZ 0%Z; AB g] =>
+        if must_reject then AS "input that is not three base64 segments with JSON-object header and payload is parsed as a JWT"
+        else if (Z.eqb kind 0) && negb (bytes_eqb g sig) then AS "signature bytes differ from the encoded signature"
+        else AL []
+    | AL [AZ 1%Z] => if Z.eqb kind 0 then AS "well-formed JWT is not recognised" else AL []
+    | AL [AZ 2%Z] => AS "failure of the program (panic)"
+    | _ => AS "malformed observation"
+    end
+  else if bytes_eqb op (bs "describe") then
+    match impl with
+    | AL [o] =>
+        match o with
+        | AL [AZ 0%Z; ia] =>
+            if must_reject then AS "input that is not three base64 segments with JSON-object header and payload is described as a JWT"
+            else if Z.eqb kind 0 then check_described hdr pl sig (info_of_arg ia) else AL []
+        | AL [AZ 1%Z] => if Z.eqb kind 0 then AS "well-formed JWT is not recognised" else AL []
+        | AL [AZ 2%Z] => AS "failure of the program (panic)"
+        | _ => AS "malformed observation"
+        end
+    | AL (_ :: _ :: _) =>
+        if existsb is_panic_obs (arg_list impl) then AS "failure of the program (panic)"
+        else AS "the description of the same token differs between runs (attribute order)"
+    | _ => AS "malformed observation"
+    end
+  else if bytes_eqb op (bs "inspect") then
+    match impl with
+    | AL [AZ 0%Z; ia] => if Z.eqb kind 0 then check_described hdr pl sig (info_of_arg ia) else AL []
+    | AL [AZ 2%Z] => AS "failure of the program (panic)"
+    | _ => if Z.eqb kind 0 then AS "well-formed JWT is not recognised" else AL []
+    end
+  else AL [].
